@@ -19,13 +19,17 @@
 (* only the state of the selected connections.                             *)
 (*                                                                         *)
 (* The order of the list: input order (COMPORD INPUT) or, by default,      *)
-(* along the well track, which for a vertical well is increasing k.        *)
+(* along the well track, which for a vertical well is increasing k.  For   *)
+(* wells with laterals (FreeOrder) the track order itself is not modelled: *)
+(* what is required is that it is stable - an operation never changes the  *)
+(* relative order of the connections that were there before it.            *)
 (***************************************************************************)
 EXTENDS Integers, Sequences, FiniteSets, TLC
 
-CONSTANTS Wells, NK, MaxOps, MaxSteps, InputOrder     \* InputOrder \subseteq Wells
+CONSTANTS Wells, NK, MaxOps, MaxSteps, InputOrder,     \* InputOrder \subseteq Wells
+          FreeOrder, FreeCells   \* wells with laterals: their cells are ids from FreeCells, their track order is not modelled
 
-Sel == [k : 0..NK, c1 : 0..NK, c2 : 0..NK, ij : {"default", "head", "other"}]   \* 0 = defaulted
+Sel == [k : (0..NK) \cup FreeCells, c1 : 0..NK, c2 : 0..NK, ij : {"default", "head", "other"}]   \* 0 = defaulted
 Matches(c, s) == /\ s.ij # "other"
                  /\ (s.k = 0 \/ c.k = s.k)
                  /\ (s.c1 = 0 \/ c.complnum >= s.c1)
@@ -45,7 +49,7 @@ CompdatCell(w, cs, k, state, rec) ==
                                THEN [cs[n] EXCEPT !.state = state, !.rec = rec, !.mult = 1]
                                ELSE cs[n]]
     ELSE LET c == [k |-> k, complnum |-> Len(cs) + 1, sort |-> Len(cs), state |-> state, rec |-> rec, mult |-> 1]
-         IN IF w \in InputOrder THEN Append(cs, c) ELSE InsertByK(cs, c)
+         IN IF w \in InputOrder \cup FreeOrder THEN Append(cs, c) ELSE InsertByK(cs, c)
 RECURSIVE CompdatRange(_, _, _, _, _, _)
 CompdatRange(w, cs, k1, k2, state, rec) ==
     IF k1 > k2 THEN cs ELSE CompdatRange(w, CompdatCell(w, cs, k1, state, rec), k1 + 1, k2, state, rec)
@@ -76,13 +80,16 @@ States == {"OPEN", "SHUT"}
 Do(o) == st' = ApplyOp(st, o) /\ nops' = nops + 1 /\ last' = o /\ UNCHANGED step
 Compdat(w, k1, k2, s) == /\ k1 <= k2 /\ nrec' = nrec + 1
                          /\ Do([op |-> "COMPDAT", well |-> w, k1 |-> k1, k2 |-> k2, state |-> s, rec |-> nrec + 1])
-Wpimult(w, sel, f) == Do([op |-> "WPIMULT", well |-> w, sel |-> sel, f |-> f]) /\ UNCHANGED nrec
-Welopen(w, sel, s) == ~AllDefault(sel) /\ Do([op |-> "WELOPEN", well |-> w, sel |-> sel, state |-> s]) /\ UNCHANGED nrec
+\* a selection names a layer of a vertical well, or a whole cell of a well with laterals
+SelFits(w, s) == IF w \in FreeOrder THEN s.k \in {0} \cup FreeCells ELSE s.k \in 0..NK
+Wpimult(w, sel, f) == SelFits(w, sel) /\ Do([op |-> "WPIMULT", well |-> w, sel |-> sel, f |-> f]) /\ UNCHANGED nrec
+Welopen(w, sel, s) == SelFits(w, sel) /\ ~AllDefault(sel) /\ Do([op |-> "WELOPEN", well |-> w, sel |-> sel, state |-> s]) /\ UNCHANGED nrec
 NextStep == step < MaxSteps /\ st' = EndStep(st) /\ step' = step + 1 /\ last' = [op |-> "end"] /\ UNCHANGED <<nops, nrec>>
 SmallSel == {s \in Sel : (s.c1 = 0 \/ s.c2 = 0 \/ s.c1 <= s.c2)}
 Next == \/ NextStep
         \/ nops < MaxOps /\
-           ( \/ \E w \in Wells, k1, k2 \in 1..NK, s \in States : Compdat(w, k1, k2, s)
+           ( \/ \E w \in Wells \ FreeOrder, k1, k2 \in 1..NK, s \in States : Compdat(w, k1, k2, s)
+             \/ \E w \in FreeOrder, c \in FreeCells, s \in States : Compdat(w, c, c, s)
              \/ \E w \in Wells, sel \in SmallSel, f \in {2, 3} : Wpimult(w, sel, f)
              \/ \E w \in Wells, sel \in SmallSel, s \in States : Welopen(w, sel, s) )
 Spec == Init /\ [][Next]_vars
@@ -97,7 +104,7 @@ Numbering == \A w \in Wells : LET cs == st.conns[w] IN
                 /\ {c.sort : c \in Range(cs)} = 0..(Len(cs) - 1)
                 /\ \A c \in Range(cs) : c.sort = c.complnum - 1
                 /\ Cardinality({c.k : c \in Range(cs)}) = Len(cs)
-Ordered == \A w \in Wells : LET cs == st.conns[w] IN
+Ordered == \A w \in Wells \ FreeOrder : LET cs == st.conns[w] IN
               IF w \in InputOrder THEN \A n \in 1..Len(cs) : cs[n].complnum = n
               ELSE \A n \in 1..(Len(cs) - 1) : cs[n].k < cs[n + 1].k
 \* an operation changes only the connections it addresses: the others keep every field, and their relative order
